@@ -16,6 +16,7 @@ import (
 	"strings"
 	"text/template"
 	"unicode"
+	"unicode/utf8"
 )
 
 func init() {
@@ -483,8 +484,20 @@ func installNatives(it *Interp) {
 		"path/filepath.Join": filepath.Join, "path/filepath.Base": filepath.Base, "path/filepath.Dir": filepath.Dir, "path/filepath.Ext": filepath.Ext,
 		"path/filepath.Clean": filepath.Clean, "path/filepath.ToSlash": filepath.ToSlash,
 		"unicode.IsUpper": unicode.IsUpper, "unicode.IsLower": unicode.IsLower, "unicode.IsLetter": unicode.IsLetter, "unicode.IsDigit": unicode.IsDigit,
-		"unicode.ToUpper": unicode.ToUpper, "unicode.ToLower": unicode.ToLower,
+		"unicode.ToUpper": unicode.ToUpper, "unicode.ToLower": unicode.ToLower, "unicode.IsSpace": unicode.IsSpace, "unicode.IsPunct": unicode.IsPunct,
+		"sort.SearchStrings": sort.SearchStrings, "sort.SearchInts": sort.SearchInts, "sort.StringsAreSorted": sort.StringsAreSorted,
+		"strings.SplitN": strings.SplitN, "strings.TrimFunc": nil, "strings.IndexAny": strings.IndexAny, "strings.ContainsAny": strings.ContainsAny,
+		"strings.IndexRune": strings.IndexRune, "strings.LastIndexByte": strings.LastIndexByte, "strings.Compare": strings.Compare,
+		"strings.SplitAfter": strings.SplitAfter, "strings.ToTitle": strings.ToTitle,
+		"strconv.ParseBool": strconv.ParseBool, "strconv.QuoteRune": strconv.QuoteRune,
+		"path.IsAbs": path.IsAbs, "path.Split": path.Split, "path/filepath.IsAbs": filepath.IsAbs, "path/filepath.Split": filepath.Split,
+		"path/filepath.FromSlash": filepath.FromSlash, "path/filepath.Rel": filepath.Rel,
+		"unicode/utf8.RuneCountInString": utf8.RuneCountInString, "unicode/utf8.ValidString": utf8.ValidString,
+		"go/token.IsIdentifier": token.IsIdentifier, "go/token.IsKeyword": token.IsKeyword, "go/token.IsExported": token.IsExported,
 	} {
+		if fn == nil {
+			continue
+		}
 		n[name] = pure(name, fn)
 	}
 	n["fmt.Sprintf"] = func(it *Interp, args []Value) ([]Value, error) {
@@ -609,6 +622,37 @@ func installNatives(it *Interp) {
 			}
 			return nil, serr
 		}
+	}
+	for name, fn := range map[string]any{"strings.Cut": strings.Cut, "strings.CutPrefix": strings.CutPrefix, "strings.CutSuffix": strings.CutSuffix} {
+		n[name] = pure(name, fn)
+	}
+	n["sort.Search"] = func(it *Interp, args []Value) ([]Value, error) {
+		k, ok := args[0].(int)
+		f, ok2 := args[1].(*Func)
+		if !ok || !ok2 {
+			return nil, &EvalError{Msg: "sort.Search with " + Show(args[0]) + ", " + Show(args[1])}
+		}
+		var ferr error
+		i := sort.Search(k, func(i int) bool {
+			if ferr != nil {
+				return true
+			}
+			vs, err := it.Call(f, []Value{i})
+			if err != nil {
+				ferr = err
+				return true
+			}
+			b, ok := vs[0].(bool)
+			if !ok {
+				ferr = &EvalError{Msg: "sort.Search: the predicate's answer is " + Show(vs[0])}
+				return true
+			}
+			return b
+		})
+		if ferr != nil {
+			return nil, ferr
+		}
+		return []Value{i}, nil
 	}
 	n["sort.Slice"] = sortSlice(false)
 	n["sort.SliceStable"] = sortSlice(true)
